@@ -108,7 +108,15 @@ func main() {
 				}
 				return true
 			})
-			// embedded fields of renamed types are named after the type: handled by the type's identifier itself
+			if want["invertif"] {
+				invertIfs(f)
+			}
+			if want["tmpret"] {
+				tmpReturns(f, pk.TypesInfo)
+			}
+			if want["reorder"] {
+				reorderDecls(f)
+			}
 			var buf bytes.Buffer
 			if err := printer.Fprint(&buf, pk.Fset, f); err != nil {
 				fmt.Println(err)
@@ -123,4 +131,114 @@ func main() {
 	}
 	fmt.Printf("renamed %d identifier occurrences\n", n)
 	_ = token.NoPos
+}
+
+
+// invertIfs rewrites every `if c { A } else { B }` (B a plain block) into `if !(c) { B } else { A }`.
+func invertIfs(f *ast.File) {
+	ast.Inspect(f, func(n ast.Node) bool {
+		ifs, ok := n.(*ast.IfStmt)
+		if !ok || ifs.Else == nil {
+			return true
+		}
+		els, isBlock := ifs.Else.(*ast.BlockStmt)
+		if !isBlock {
+			return true
+		}
+		ifs.Cond = &ast.UnaryExpr{Op: token.NOT, X: &ast.ParenExpr{X: ifs.Cond}}
+		ifs.Body, ifs.Else = els, ifs.Body
+		return true
+	})
+}
+
+// tmpReturns rewrites `return e1, e2` into `var r1 T1 = e1; var r2 T2 = e2; return r1, r2` (single-exit style value
+// plumbing) in every function with unnamed results, unless the return forwards a call's tuple.
+func tmpReturns(f *ast.File, info *types.Info) {
+	counter := 0
+	var doBody func(ft *ast.FuncType, body *ast.BlockStmt)
+	var fixList func(ft *ast.FuncType, list []ast.Stmt) []ast.Stmt
+	fixStmt := func(ft *ast.FuncType, s ast.Stmt) {}
+	_ = fixStmt
+	var walk func(ft *ast.FuncType, n ast.Node)
+	walk = func(ft *ast.FuncType, n ast.Node) {
+		ast.Inspect(n, func(m ast.Node) bool {
+			switch x := m.(type) {
+			case *ast.FuncLit:
+				doBody(x.Type, x.Body)
+				return false
+			case *ast.BlockStmt:
+				x.List = fixList(ft, x.List)
+			case *ast.CaseClause:
+				x.Body = fixList(ft, x.Body)
+			case *ast.CommClause:
+				x.Body = fixList(ft, x.Body)
+			}
+			return true
+		})
+	}
+	fixList = func(ft *ast.FuncType, list []ast.Stmt) []ast.Stmt {
+		var out []ast.Stmt
+		for _, s := range list {
+			ret, ok := s.(*ast.ReturnStmt)
+			if !ok || ft.Results == nil || len(ret.Results) == 0 {
+				out = append(out, s)
+				continue
+			}
+			var rtypes []ast.Expr
+			named := false
+			for _, fld := range ft.Results.List {
+				if len(fld.Names) > 0 {
+					named = true
+				}
+				k := len(fld.Names)
+				if k == 0 {
+					k = 1
+				}
+				for i := 0; i < k; i++ {
+					rtypes = append(rtypes, fld.Type)
+				}
+			}
+			if named || len(rtypes) != len(ret.Results) {
+				out = append(out, s)
+				continue
+			}
+			var names []ast.Expr
+			for i, e := range ret.Results {
+				counter++
+				nm := ast.NewIdent(fmt.Sprintf("retTmp%d", counter))
+				out = append(out, &ast.DeclStmt{Decl: &ast.GenDecl{Tok: token.VAR, Specs: []ast.Spec{&ast.ValueSpec{Names: []*ast.Ident{nm}, Type: rtypes[i], Values: []ast.Expr{e}}}}})
+				names = append(names, ast.NewIdent(nm.Name))
+			}
+			out = append(out, &ast.ReturnStmt{Results: names})
+		}
+		return out
+	}
+	doBody = func(ft *ast.FuncType, body *ast.BlockStmt) {
+		if body == nil {
+			return
+		}
+		walk(ft, body)
+	}
+	for _, d := range f.Decls {
+		if fd, ok := d.(*ast.FuncDecl); ok {
+			doBody(fd.Type, fd.Body)
+		}
+	}
+}
+
+// reorderDecls reverses the order of the function declarations of the file (other declarations stay in front).
+func reorderDecls(f *ast.File) {
+	var funcs, others []ast.Decl
+	for _, d := range f.Decls {
+		if _, ok := d.(*ast.FuncDecl); ok {
+			funcs = append(funcs, d)
+		} else {
+			others = append(others, d)
+		}
+	}
+	for i, j := 0, len(funcs)-1; i < j; i, j = i+1, j-1 {
+		funcs[i], funcs[j] = funcs[j], funcs[i]
+	}
+	f.Decls = append(others, funcs...)
+	f.Comments = nil
 }
